@@ -37,6 +37,7 @@ type c06Case struct {
 	OneChar  bool    `json:"oneCharDigitName,omitempty"`    // digit-first names are a single digit
 	Pad      int     `json:"plainElementsBefore,omitempty"` // plain list elements placed before (and one after) the featured element
 	Variant  int     `json:"featureVariant,omitempty"`      // which spelling of each feature is used (0 = the plain one)
+	Decoys   bool    `json:"emptyDecoys,omitempty"`         // present-but-empty maps and lists wherever the feature is NOT used
 }
 
 func addFeature(e *specs.ContainerEdits, f int, pad int, variant int) {
@@ -97,6 +98,26 @@ func (c c06Case) build() *specs.Spec {
 				addFeature(&s.ContainerEdits, f, c.Pad, c.Variant)
 			default:
 				addFeature(&devs[p].ContainerEdits, f, c.Pad, c.Variant)
+			}
+		}
+	}
+	if c.Decoys {
+		// an empty map / list is not a use of the field (it is not even written to a file)
+		if s.Annotations == nil {
+			s.Annotations = map[string]string{}
+		}
+		if s.ContainerEdits.AdditionalGIDs == nil {
+			s.ContainerEdits.AdditionalGIDs = []uint32{}
+		}
+		for i := range devs {
+			if devs[i].Annotations == nil {
+				devs[i].Annotations = map[string]string{}
+			}
+			if devs[i].ContainerEdits.AdditionalGIDs == nil {
+				devs[i].ContainerEdits.AdditionalGIDs = []uint32{}
+			}
+			if devs[i].ContainerEdits.Mounts == nil {
+				devs[i].ContainerEdits.Mounts = []*specs.Mount{}
 			}
 		}
 	}
@@ -258,6 +279,7 @@ func TestC06Exhaustive(t *testing.T) {
 				c.OneChar = len(c.Places[fDigitName]) > 0 && count%2 == 0
 				c.Pad = int(count % 3)
 				c.Variant = int(count % 7)
+				c.Decoys = count%5 == 0
 				for pi, perm := range perms {
 					c.Perm = perm
 					for vi, v := range declaredPool {
@@ -325,6 +347,7 @@ func genC06(t *rapid.T) c06Case {
 	c.OneChar = rapid.Bool().Draw(t, "oneCharDigitName")
 	c.Pad = rapid.IntRange(0, 2).Draw(t, "plainElementsBefore")
 	c.Variant = rapid.IntRange(0, 11).Draw(t, "featureVariant")
+	c.Decoys = rapid.IntRange(0, 3).Draw(t, "emptyDecoys") == 0
 	if rapid.IntRange(0, 3).Draw(t, "declKind") == 0 {
 		c.Declared = rapid.OneOf(rapid.SampledFrom(declaredPool), rapid.StringMatching(`[0-9v. ]{0,7}`), rapid.String()).Draw(t, "declared")
 		// a leading "v" is a stated don't-care
